@@ -292,14 +292,16 @@ theorem plainLang_found (c : WCfg) (name : Name) (st : WSt) (hn : nameOver c.lan
 
 /-- What a reader makes of the items written for a plain node is the source view. -/
 def ViewN (c : WCfg) (n : Node) (st st' : WSt) (items : List Item) : Prop :=
-  plainNode n = true → plainLang c.lang = true → st.inCdata = false → isBinaryTag st.curTag = false →
-    st'.inCdata = false ∧
+  plainNode n = true → plainLang c.lang = true → noTypedAttr c.lang.id = true →
+    st.inCdata = false → isBinaryTag st.curTag = false →
+    st'.inCdata = false ∧ opqsItems items = [] ∧
     ∀ ctx : Ctx, Rd c st'.strtbl ctx → ∀ own,
       (evItems ctx own ⟨st.tagPage, st.attrPage⟩ items).1.flatMap toks = srcToks c n
 
 def ViewL (c : WCfg) (l : List Node) (st st' : WSt) (items : List Item) : Prop :=
-  plainNodes l = true → plainLang c.lang = true → st.inCdata = false → isBinaryTag st.curTag = false →
-    st'.inCdata = false ∧ isBinaryTag st'.curTag = false ∧
+  plainNodes l = true → plainLang c.lang = true → noTypedAttr c.lang.id = true →
+    st.inCdata = false → isBinaryTag st.curTag = false →
+    st'.inCdata = false ∧ isBinaryTag st'.curTag = false ∧ opqsItems items = [] ∧
     ∀ ctx : Ctx, Rd c st'.strtbl ctx → ∀ own,
       (evItems ctx own ⟨st.tagPage, st.attrPage⟩ items).1.flatMap toks = srcToksL c l
 
@@ -349,8 +351,9 @@ theorem encNode_seg :
       simp only [List.isEmpty_nil, Bool.not_true, Bool.and_false, Bool.false_eq_true, ↓reduceIte] at h3 hs
       subst h3
       refine ⟨_, (Seg.elem_empty c _ _ st st1 sw tag as hs).congr_right rfl rfl rfl rfl rfl, fun _ => ⟨_, rfl⟩, rfl, ?_⟩
-      intro _ _ hcd _
-      refine ⟨by show st1.inCdata = false; rw [hcur.1, hcd], ?_⟩
+      intro _ _ hnta hcd _
+      refine ⟨by show st1.inCdata = false; rw [hcur.1, hcd], ?_, ?_⟩
+      · rw [opqsItems_single, opqsItem_elem, opqsElem_mk, opqsContent_none, hs.noopq hnta]; rfl
       intro ctx hr own
       have hr1 : Rd c st1.strtbl ctx := hr
       rw [evItems_single_events, evItem_elem, evElem_mk, evContent_none]
@@ -363,10 +366,12 @@ theorem encNode_seg :
       subst h3
       refine ⟨_, (Seg.elem_content c _ _ st st1 st2 sw tag as items hs hk).congr_right rfl rfl rfl rfl rfl,
         fun _ => ⟨_, rfl⟩, rfl, ?_⟩
-      intro hpn hpl hcd _
+      intro hpn hpl hnta hcd _
       rw [plainNode] at hpn
-      obtain ⟨hcd2, _, hview⟩ := hkv hpn hpl (by rw [hcur.1, hcd]) (by rw [hcur.2]; exact plainLang_found c name st hname hpl)
-      refine ⟨hcd2, ?_⟩
+      obtain ⟨hcd2, _, hnoq, hview⟩ := hkv hpn hpl hnta (by rw [hcur.1, hcd])
+        (by rw [hcur.2]; exact plainLang_found c name st hname hpl)
+      refine ⟨hcd2, ?_, ?_⟩
+      · rw [opqsItems_single, opqsItem_elem, opqsElem_mk, opqsContent_some, hs.noopq hnta, hnoq]; rfl
       intro ctx hr own
       have hr2 : Rd c st2.strtbl ctx := hr
       have hr1 : Rd c st1.strtbl ctx := hr2.mono hk.tbl.pre
@@ -385,14 +390,15 @@ theorem encNode_seg :
     obtain ⟨items, hleaf, ho, htp, hap, ht, hlen, hcdeq, hv⟩ := encTextW_spec c parent s st st1 hinv h1
     refine ⟨items, (Seg.leaves c st st1 items hleaf ho htp hap ht hlen).congr_right rfl rfl rfl rfl rfl,
       fun h => (by cases h), rfl, ?_⟩
-    intro _ hpl hcd hbin
+    intro _ hpl _ hcd hbin
     simp only [plainLang, Bool.and_eq_true, Bool.not_eq_true'] at hpl
-    refine ⟨by show st1.inCdata = false; rw [hcdeq, hcd], ?_⟩
+    obtain ⟨hnoq, hv⟩ := hv hpl.1.1 hpl.1.2 hl hcd hbin
+    refine ⟨by show st1.inCdata = false; rw [hcdeq, hcd], hnoq, ?_⟩
     intro ctx hr own
     have hres : Resolves ctx.tbl st.strtbl := by
       have : st1.strtbl = st.strtbl := ht
       intro e he; exact hr.res e (by show e ∈ st1.strtbl; rw [this]; exact he)
-    rw [hv hpl.1.1 hpl.1.2 hl hcd hbin ctx hres own _, srcToks]
+    rw [hv ctx hres own _, srcToks]
   · -- CDATA inside CDATA
     intro c parent encEnd kids st s hs _ _ _ _ st' h
     simp only [encNodeG, hs] at h
@@ -445,8 +451,8 @@ theorem encNode_seg :
     have := ok_inj h
     subst this
     refine ⟨[], Seg.nil c st, ?_⟩
-    intro _ _ hcd hbin
-    exact ⟨hcd, hbin, fun ctx _ own => by rw [evItems_nil, srcToksL]; rfl⟩
+    intro _ _ _ hcd hbin
+    exact ⟨hcd, hbin, opqsItems_nil, fun ctx _ own => by rw [evItems_nil, srcToksL]; rfl⟩
   · -- a node and its later siblings
     intro c parent n rest st ih1 ih2 hl hover hinv st' h
     rw [nodesOver, Bool.and_eq_true] at hover
@@ -455,11 +461,11 @@ theorem encNode_seg :
     obtain ⟨a, ha, _, hcur1, hva⟩ := ih1 rfl hl hover.1 hinv st1 h1
     obtain ⟨b, hb, hvb⟩ := ih2 st1 hl hover.2 (ha.tbl.inv hinv) st' h
     refine ⟨a ++ b, ha.append hb, ?_⟩
-    intro hpn hpl hcd hbin
+    intro hpn hpl hnta hcd hbin
     rw [plainNodes, Bool.and_eq_true] at hpn
-    obtain ⟨hcd1, hview1⟩ := hva hpn.1 hpl hcd hbin
-    obtain ⟨hcd2, hbin2, hview2⟩ := hvb hpn.2 hpl hcd1 (by rw [hcur1]; rfl)
-    refine ⟨hcd2, hbin2, ?_⟩
+    obtain ⟨hcd1, hnoq1, hview1⟩ := hva hpn.1 hpl hnta hcd hbin
+    obtain ⟨hcd2, hbin2, hnoq2, hview2⟩ := hvb hpn.2 hpl hnta hcd1 (by rw [hcur1]; rfl)
+    refine ⟨hcd2, hbin2, by rw [opqsItems_append, hnoq1, hnoq2]; rfl, ?_⟩
     intro ctx hr own
     rw [evItems_append_events, List.flatMap_append, hview1 ctx (hr.mono hb.tbl.pre) own, ha.pages ctx own,
       hview2 ctx hr own, srcToksL]
